@@ -17,6 +17,7 @@
 -/
 import CatVerif.Proofs.WriteNum
 import CatVerif.Proofs.Log
+import CatVerif.Proofs.Steps
 namespace Cat
 open St Spec
 
@@ -105,5 +106,12 @@ theorem C04_reject_error (D : Desc) (s : St) (i : SvcIn)
 example : IsUIntText [50, 53, 53] ∧ fitsU 1 (decValue [50, 53, 53]) ∧ ¬ fitsU 1 (decValue [50, 53, 54]) := by
   refine ⟨⟨by simp, by decide⟩, ⟨Or.inl rfl, by decide⟩, ?_⟩
   intro ⟨_, h⟩; revert h; decide
+
+/-- how an argument is handed to its variable — the parser chosen by the variable's type, range validation for the
+three numeric types, any failure answered with ERROR before anything else happens; then the variable's write
+callback, the next argument, the end of the list — is the function whose statements are re-recognised in
+`parse_write_args` of the source on every run (translator item T18) -/
+theorem C04_dispatch_generated (D : Desc) (s : St) (i : SvcIn) : parseWriteArgs D s i = Gen.parse_write_args D s i :=
+  parseWriteArgs_generated D s i
 
 end Cat
